@@ -1,0 +1,61 @@
+//go:build verif
+
+package pipeline
+
+import (
+	"sync/atomic"
+	"time"
+)
+
+// Hooks for the verification harness. They never change pipeline state
+// (except VerifWakeProcessors / VerifSetPoolWakeupInterval, which only exist
+// to let a harness end or speed up a run) and carry no semantic claims.
+
+var verifGateFn atomic.Pointer[func(point string)]
+
+// VerifSetGate installs (or, with nil, removes) the schedule hook called at
+// the named windows; the harness may park the calling goroutine there.
+func VerifSetGate(fn func(point string)) {
+	if fn == nil {
+		verifGateFn.Store(nil)
+		return
+	}
+	verifGateFn.Store(&fn)
+}
+
+func verifGate(point string) {
+	if fn := verifGateFn.Load(); fn != nil {
+		(*fn)(point)
+	}
+}
+
+// VerifPoolInUse returns the in-use counter of the event pool.
+func (p *Pipeline) VerifPoolInUse() int64 { return p.eventPool.inUse() }
+
+// VerifPoolWaiters returns the number of readers parked on the event pool.
+func (p *Pipeline) VerifPoolWaiters() int64 { return p.eventPool.waiters() }
+
+// VerifStreamerDump returns the streamer's debug dump.
+func (p *Pipeline) VerifStreamerDump() string { return p.streamer.dump() }
+
+// VerifPoolDump returns the event pool's debug dump.
+func (p *Pipeline) VerifPoolDump() string { return p.eventPool.dump() }
+
+// VerifWakeProcessors wakes processors parked in joinStream so that they
+// observe a stop request and exit (after Stop they otherwise stay parked).
+func (p *Pipeline) VerifWakeProcessors() {
+	p.streamer.chargedMu.Lock()
+	p.streamer.chargedCond.Broadcast()
+	p.streamer.chargedMu.Unlock()
+}
+
+// VerifSetPoolWakeupInterval changes the period of the pool's waiter
+// heartbeat; call it before Start.
+func (p *Pipeline) VerifSetPoolWakeupInterval(d time.Duration) {
+	switch pool := p.eventPool.(type) {
+	case *eventPool:
+		pool.wakeupInterval = d
+	case *lowMemoryEventPool:
+		pool.wakeupInterval = d
+	}
+}
